@@ -512,6 +512,31 @@ def rw_R11_map_collect(text, log, where):
         text = text[:k] + new + text[end:]
 
 
+def rw_R11c_extend_map(text, log, where):
+    """V.extend(X.into_iter().map(|x| E)) -> V.append(&mut X.into_iter().map(|x| E).collect::<Vec<_>>()): the same elements
+    in the same order (definition of Extend for Vec), brought to the shape R11 expands"""
+    pos = 0
+    while True:
+        masked = mask_code(text)
+        m = re.search(r'\.\s*extend\s*\(', masked[pos:])
+        if not m:
+            return text
+        o = pos + m.end() - 1
+        c = match_close(masked, o)
+        arg = text[o + 1:c]
+        marg = masked[o + 1:c]
+        mm = None
+        for mm in re.finditer(r'\.\s*into_iter\(\)\s*\.\s*map\s*\(', marg):
+            pass
+        if mm and match_close(marg, mm.end() - 1) == len(marg.rstrip()) - 1:
+            new = '.append(&mut %s.collect::<Vec<_>>())' % arg.strip()
+            log.append({'rule': 'R11', 'where': where, 'before': text[pos + m.start():c + 1][:300], 'after': new[:300]})
+            text = text[:pos + m.start()] + new + text[c + 1:]
+            pos = pos + m.start() + len(new)
+        else:
+            pos = c + 1
+
+
 def rw_R11b_iter_map_collect(text, log, where, ret_type=None):
     """S.iter().map(|&x| E).collect() over a slice of Copy items -> index loop pushing E in order (definition of map-collect)"""
     n = 0
@@ -829,7 +854,10 @@ def apply_text_rules(text, log, where, opts):
     for before, after in opts.get('subst', []):
         rx = re.compile(ws_regex(before))
         if not rx.search(text):
-            raise ExtractError('substitution anchor lost in %s: %r' % (where, before))
+            # the text a substitution stands for is gone: go on with the code as it is now -- Verus then either checks the new
+            # text against the contract or rejects a construct outside its subset (undecided); never a silent pass
+            log.append({'rule': 'Rsub-anchor-absent', 'where': where, 'before': before})
+            continue
         n = len(rx.findall(text))
         log.append({'rule': 'Rsub', 'where': where, 'before': before, 'after': after, 'count': n})
         text = rx.sub(lambda m: after, text)
@@ -849,6 +877,7 @@ def apply_text_rules(text, log, where, opts):
     text = rw_R17_map_or_else(text, log, where)
     text = rw_R18_to_strings(text, log, where)
     text = rw_R19_join(text, log, where)
+    text = rw_R11c_extend_map(text, log, where)
     text = rw_R11_map_collect(text, log, where)
     text = rw_R11b_iter_map_collect(text, log, where, opts.get('ret_type'))
     text = rw_R24_flat_map_collect(text, log, where)
@@ -1101,7 +1130,8 @@ class Unit:
               'subst_opt': self.subst_rules.get('*', [])}
         for rx_, rep_ in self.rsubst_rules.get(name, []):
             if not re.search(rx_, fbody):
-                raise ExtractError('substitution anchor lost in %s: /%s/' % (where, rx_))
+                self.log.append({'rule': 'Rsub-anchor-absent', 'where': where, 'before': '/' + rx_ + '/'})
+                continue
             self.log.append({'rule': 'Rsub', 'where': where, 'before': '/' + rx_ + '/', 'after': rep_, 'count': len(re.findall(rx_, fbody))})
             fbody = re.sub(rx_, rep_, fbody)
         fbody = apply_text_rules(fbody, self.log, where, o2)
